@@ -96,12 +96,17 @@ func ruleUnitDefs(r *Report) {
 	var shift int64
 	fmt.Sscanf(cs1, "%d", &shift)
 	for _, pkg := range []string{"column", "commit"} {
-		bs, _ := get(pkg, "bitmapShift")
-		sz, _ := get(pkg, "chunkSize")
-		bsz, _ := get(pkg, "bitmapSize")
-		h.Check(bs == fmt.Sprint(shift-6), pkg+".bitmapShift", "-", "= chunkShift-6", pkg+".bitmapShift is "+bs+", expected chunkShift-6")
-		h.Check(sz == fmt.Sprint(int64(1)<<shift), pkg+".chunkSize", "-", "= 1<<chunkShift", pkg+".chunkSize is "+sz)
-		h.Check(bsz == fmt.Sprint(int64(1)<<(shift-6)), pkg+".bitmapSize", "-", "= chunkSize/64", pkg+".bitmapSize is "+bsz)
+		// the derived constants are checked where a package declares them (an unused one may be
+		// removed; the functions that would have used it are checked by their arithmetic below)
+		if bs, ok := r.P.ConstVal(pkg, "bitmapShift"); ok {
+			h.Check(bs == fmt.Sprint(shift-6), pkg+".bitmapShift", "-", "= chunkShift-6", pkg+".bitmapShift is "+bs+", expected chunkShift-6")
+		}
+		if sz, ok := r.P.ConstVal(pkg, "chunkSize"); ok {
+			h.Check(sz == fmt.Sprint(int64(1)<<shift), pkg+".chunkSize", "-", "= 1<<chunkShift", pkg+".chunkSize is "+sz)
+		}
+		if bsz, ok := r.P.ConstVal(pkg, "bitmapSize"); ok {
+			h.Check(bsz == fmt.Sprint(int64(1)<<(shift-6)), pkg+".bitmapSize", "-", "= chunkSize/64", pkg+".bitmapSize is "+bsz)
+		}
 	}
 	// scaling inside the defining functions: every shift / multiplication / division / mask by a
 	// constant, brought to the form "× or ÷ or mod 2^k", uses the block size (resp. the words per
